@@ -531,6 +531,8 @@ class Tr:
             return "true" if e[1] else "false"
         if k == "paren":
             return self.ex(e[1])
+        if k == "tuple":
+            return "(" + ", ".join(self.ex(x) for x in e[1]) + ")"
         if k == "neg":
             return "(nneg %s)" % self.ex(e[1])
         if k == "not":
@@ -781,6 +783,10 @@ class Tr:
             return t
         if t in ("Vector2", "Point2"):
             return "(num * num)%type"
+        m = re.fullmatch(r"\((.+)\)", t)
+        if m and "," in m.group(1):
+            parts = [x.strip() for x in split_top(m.group(1))]
+            return "(" + " * ".join(self.coq_ty(x) for x in parts) + ")%type"
         m = re.fullmatch(r"Option<(.+)>", t)
         if m:
             return "(option %s)" % self.coq_ty(m.group(1))
